@@ -41,8 +41,9 @@
      * keys are strings (no I32 keys), the operator is `=`, no Property<T> (text only), no token-attribute
        structs (the text side refuses numeric keys there), no `any` / String / date target on an integer
        (text hands out the numeral, binary the number: by design), DateHour dates;
-     * the text side starts from the tape / token sequence of to_text d (bytes -> tape under every layout:
-       C01_parse_render; bytes -> tokens for every buffer size: C07). *)
+     * C10_text_bytes_bin_agree_partial starts from the text BYTES under every layout for the tape path
+       (through C01_parse_render); the stream path starts from the token sequence (bytes -> tokens for every
+       buffer size is C07, not composed here). *)
 From JV Require Import Bytes Tables Utf8 Scalar Date TextTok BinPrim BufWin BinLexer BinReader SerdeShape
   TextDeCommon BinDeCommon TextDeSpec TextDeTape TextDeStream BinDeOndemand BinDeReader BinDeTape LogicDoc.
 From JV Require TextDoc BinDoc.
@@ -188,6 +189,24 @@ Theorem C10_text_bin_agree_partial : forall decode pf cfg sh d e cap sched,
 Proof. exact text_bin_agree. Qed.
 Print Assumptions C10_text_bin_agree_partial.
 
+(* ... and from the text BYTES: whatever the layout of the text rendering (white space, comments, `=` before
+   `{`, BOM: TextDoc.wf_layout), the text parser produces the tape (C01_parse_render) on which the text
+   deserializer returns what every binary path returns on the binary rendering.  [TextDoc.wf_doc (to_text d)]:
+   the strings of the document are writable as text scalars (a boolean check on the rendering). *)
+Theorem C10_text_bytes_bin_agree_partial : forall decode pf cfg sh d e l cap sched,
+  wf_ldoc d = true -> norgb_fields d = true ->
+  shared decode pf cfg sh d -> enc_ok decode cfg e d ->
+  TextDeSpec.fits decode pf (c_fops cfg) sh (to_text d) ->
+  TextDoc.wf_doc (to_text d) -> TextDoc.wf_layout (to_text d) l ->
+  no_fail sched = true -> BinLexer.fits cap (BinDoc.enc_doc (fst (to_bin e d)) (snd (to_bin e d))) = true ->
+  let b := BinDoc.enc_doc (fst (to_bin e d)) (snd (to_bin e d)) in
+  exists t, TextTape.parse (TextDoc.render (to_text d) l) = Ok (t, TextDoc.bom l) /\
+    TextDeTape.deser_tape decode pf (c_fops cfg) sh t = BinDeTape.deser_tape cfg sh b /\
+    TextDeTape.deser_tape decode pf (c_fops cfg) sh t = BinDeOndemand.deser_ondemand cfg sh b /\
+    TextDeTape.deser_tape decode pf (c_fops cfg) sh t = BinDeReader.deser_reader cfg cap sched sh b.
+Proof. exact text_bytes_bin_agree. Qed.
+Print Assumptions C10_text_bytes_bin_agree_partial.
+
 (* ------------------------------------------------------------------ 4. colours
    `color = rgb { r g b [a] }` (text tape: Header + array, read through the two-element view of dom.rs)
    against the binary rgb block (ColorSequence): for the typed target (String, Vec<uN>) -- how a colour is
@@ -275,7 +294,7 @@ Definition ex_value : dval :=
             ([116], DSeq [DMap [([122], DStr [113])]; DSeq []]) ].
 
 Example C10_link_nonvacuous :
-  wf_ldoc ex_doc = true /\ norgb_fields ex_doc = true /\
+  wf_ldoc ex_doc = true /\ norgb_fields ex_doc = true /\ TextDoc.wf_doc (to_text ex_doc) /\
   shared ex_dec ex_pf ex_cfg ex_shape ex_doc /\ enc_ok ex_dec ex_cfg ex_enc ex_doc /\
   TextDeSpec.fits ex_dec ex_pf (c_fops ex_cfg) ex_shape (to_text ex_doc) /\
   BinLexer.fits 32 (BinDoc.enc_doc (fst (to_bin ex_enc ex_doc)) (snd (to_bin ex_enc ex_doc))) = true /\
@@ -284,9 +303,23 @@ Example C10_link_nonvacuous :
   BinDeReader.deser_reader ex_cfg 32 [Data 1; Data 5; Data 2] ex_shape
     (BinDoc.enc_doc (fst (to_bin ex_enc ex_doc)) (snd (to_bin ex_enc ex_doc))) = Ok ex_value.
 Proof.
-  split; [reflexivity|]. split; [reflexivity|].
+  split; [reflexivity|]. split; [reflexivity|]. split; [reflexivity|].
   split. { cbn. repeat split; try reflexivity; try lia; try discriminate. }
   split. { cbn. repeat split; try reflexivity; try lia; try discriminate. }
   split. { unfold TextDeSpec.fits. vm_compute. discriminate. }
   split; [vm_compute; reflexivity|]. split; [vm_compute; reflexivity|]. split; vm_compute; reflexivity.
+Qed.
+
+(* a layout for the example: one space in every gap, no BOM; the text parser then yields the tape on which
+   the text deserializer returns the example's value *)
+Definition ex_layout : TextDoc.layout := TextDoc.mkLayout false (fun _ => [32]).
+Example C10_link_nonvacuous_layout :
+  TextDoc.wf_layout (to_text ex_doc) ex_layout /\
+  omap (fun p => TextDeTape.deser_tape ex_dec ex_pf (c_fops ex_cfg) ex_shape (fst p))
+       (TextTape.parse (TextDoc.render (to_text ex_doc) ex_layout)) = Ok (Ok ex_value).
+Proof.
+  split; [|vm_compute; reflexivity].
+  split; [intros i; apply TextDoc.gap_ws; [reflexivity|apply TextDoc.gap_nil]|].
+  split; [|intros _; vm_compute; reflexivity].
+  cbn. repeat split; intros; reflexivity.
 Qed.
